@@ -2,7 +2,8 @@
    Only statements, each closed by [exact] of a lemma proved in Proofs/, with
    Print Assumptions beneath.  Texts and buffers are lists of bytes ([N]); a
    model function returns (return code, bytes written to the destination). *)
-From UV Require Import Lib.Base Model.Inet Spec.InetSpec Proofs.InetProofs4.
+From UV Require Import Lib.Base Model.Inet Spec.InetSpec Proofs.InetProofs4 Proofs.InetProofs6
+  Proofs.InetProofs6rt.
 Local Open Scope N_scope.
 
 (* inet_pton4 accepts exactly the dotted-quad grammar (four decimal octets
@@ -57,8 +58,90 @@ Theorem C18_strscpy_bounded :
 Proof. exact strscpy_spec. Qed.
 Print Assumptions C18_strscpy_bounded.
 
+(* ---- IPv6 ---------------------------------------------------------------- *)
+
+(* all 2^128 addresses (sixteen bytes, each < 256): uv_inet_ntop succeeds for
+   every size >= 46, prints a NUL-free text, and uv_inet_pton of that text is
+   the address.  Proof by cases on the position of the compressed zero run (29
+   cases), not by enumeration of addresses. *)
+Theorem C18_ntop6_roundtrip :
+  forall a size,
+  bytes16 a -> 46 <= size ->
+  exists t, uv_inet_ntop AF_INET6 a size = (0%Z, t ++ [0]) /\
+            ~ In 0 t /\
+            uv_inet_pton AF_INET6 (t ++ [0]) = (0%Z, a).
+Proof. exact ntop6_pton6_roundtrip. Qed.
+Print Assumptions C18_ntop6_roundtrip.
+
+(* inet_ntop6, every address and every size: the text needs at most 45
+   characters (the 46-byte scratch buffer is never overrun: the model's
+   UB_TMP_OVERFLOW outcome is unreachable), nothing is written at an index
+   >= size, UV_ENOSPC iff text + NUL exceeds size, and then nothing is written *)
+Theorem C18_ntop6_bounded :
+  forall a size,
+  bytes16 a ->
+  let r := inet_ntop6 a size in
+  nlen (snd r) <= size /\
+  (fst r = UV_ENOSPC <-> size < nlen (text6 a) + 1) /\
+  (fst r = 0%Z \/ fst r = UV_ENOSPC) /\
+  (fst r <> 0%Z -> snd r = []) /\
+  fst r <> UB_TMP_OVERFLOW.
+Proof. exact ntop6_bounded. Qed.
+Print Assumptions C18_ntop6_bounded.
+
+Theorem C18_ntop6_exact :
+  forall a size,
+  bytes16 a ->
+  let text := text6 a in
+  nlen text <= 45 /\
+  (size < nlen text + 1 -> inet_ntop6 a size = (UV_ENOSPC, [])) /\
+  (nlen text + 1 <= size -> inet_ntop6 a size = (0%Z, text ++ [0])).
+Proof. exact ntop6_spec. Qed.
+Print Assumptions C18_ntop6_exact.
+
+(* ---- %zone ---------------------------------------------------------------- *)
+
+(* uv_inet_pton(AF_INET6): what is parsed is exactly the part before '%'; more
+   than 45 characters before '%' are rejected *)
+Theorem C18_inet_pton_zone :
+  forall a z,
+  ~ In 0 a -> ~ In 37 a ->
+  uv_inet_pton AF_INET6 (a ++ 37 :: z) =
+  if (45 <? length a)%nat then (UV_EINVAL, []) else inet_pton6 a.
+Proof. exact uv_inet_pton6_zone. Qed.
+Print Assumptions C18_inet_pton_zone.
+
+(* Full statement (C18_ip6_addr_zone): uv_ip6_addr (a ++ "%" ++ z) yields the
+   address that a alone denotes.  REFUTED on the current code: the address part
+   is cut to 39 characters, "1111:2222:3333:4444:5555:6666:12.2.3.123%lo" is
+   accepted (rc 0) as ...:12.2.3.12. *)
+Theorem C18_ip6_addr_zone_truncation_refuted :
+  exists a z b port,
+    ~ In 0 a /\ ~ In 37 a /\ inet_pton6 a = (0%Z, b) /\
+    exists b', uv_ip6_addr (a ++ 37 :: z) port = (0%Z, (htons port, b')) /\ b' <> b.
+Proof. exact ip6_addr_zone_truncation_refuted. Qed.
+Print Assumptions C18_ip6_addr_zone_truncation_refuted.
+
+(* what does hold: address parts of at most 39 characters *)
+Theorem C18_ip6_addr_zone_partial :
+  forall a z port,
+  ~ In 0 a -> ~ In 37 a -> (length a <= 39)%nat ->
+  uv_ip6_addr (a ++ 37 :: z) port = addr_result (inet_pton6 a) port 16.
+Proof. exact ip6_addr_zone_partial. Qed.
+Print Assumptions C18_ip6_addr_zone_partial.
+
 (* the hypotheses are satisfiable / the statements are not vacuous *)
 Example C18_example_pton4 :
   inet_pton4 [49; 57; 50; 46; 49; 54; 56; 46; 48; 46; 50; 53; 53] = (0%Z, [192; 168; 0; 255]) /\
   inet_pton4 [49; 46; 50; 46; 51; 46; 48; 52] = (UV_EINVAL, []).
 Proof. split; vm_compute; reflexivity. Qed.
+
+Example C18_example_v6 :
+  bytes16 [0;0;0;0;0;0;0;0;0;0;255;255;1;2;3;4] /\
+  uv_inet_ntop AF_INET6 [0;0;0;0;0;0;0;0;0;0;255;255;1;2;3;4] 46 =
+    (0%Z, [58;58;102;102;102;102;58;49;46;50;46;51;46;52;0]) /\
+  uv_inet_ntop AF_INET6 [0;0;0;0;0;0;0;0;0;0;255;255;1;2;3;4] 14 = (UV_ENOSPC, []).
+Proof.
+  split; [|split; vm_compute; reflexivity].
+  split; [reflexivity|]. repeat constructor.
+Qed.
